@@ -281,7 +281,15 @@ func cmdCheck(args []string) {
 	var again []*Obligation
 	for _, o := range claimed {
 		if o.Status == "unknown" {
-			again = append(again, o)
+			listed := false
+			for _, f := range readFindings(filepath.Join(*verif, "known_findings.txt")) {
+				if f.status == "known" && f.property == *prop && (f.obligation == o.Name || f.obligation == o.Key()) {
+					listed = true
+				}
+			}
+			if !listed { // a listed finding is expected to stay undecided: no second attempt
+				again = append(again, o)
+			}
 		}
 	}
 	if len(again) > 0 && len(again) <= 12 {
